@@ -1,0 +1,128 @@
+//go:build verif
+
+package vlang
+
+import (
+	"fmt"
+	"runtime/debug"
+	"strings"
+
+	"github.com/basecomplextech/spec/internal/lang"
+	"github.com/basecomplextech/spec/internal/lang/parser"
+	"github.com/basecomplextech/spec/internal/lang/syntax"
+)
+
+// Generate runs compile+generate in-process; a panic is returned as an error prefixed "PANIC:".
+func Generate(src, dst string, importPaths []string, skipRPC bool) (err error) {
+	defer func() {
+		if e := recover(); e != nil {
+			err = fmt.Errorf("PANIC: %v\n%s", e, debug.Stack())
+		}
+	}()
+	return lang.New(importPaths, skipRPC).Generate(src, dst)
+}
+
+// ParseDump parses a schema text and returns a canonical dump of the syntax tree.
+// A panic is returned as an error prefixed "PANIC:".
+func ParseDump(src string) (dump string, err error) {
+	defer func() {
+		if e := recover(); e != nil {
+			err = fmt.Errorf("PANIC: %v\n%s", e, debug.Stack())
+		}
+	}()
+	f, err := parser.New().Parse(src)
+	if err != nil {
+		return "", err
+	}
+	if f == nil {
+		return "", fmt.Errorf("NILFILE: parser returned neither a file nor an error")
+	}
+	var b strings.Builder
+	for _, im := range f.Imports {
+		fmt.Fprintf(&b, "import %q alias=%q\n", im.ID, im.Alias)
+	}
+	for _, o := range f.Options {
+		fmt.Fprintf(&b, "option %s=%q\n", o.Name, o.Value)
+	}
+	for _, d := range f.Definitions {
+		switch d.Type {
+		case syntax.DefinitionEnum:
+			fmt.Fprintf(&b, "enum %s\n", d.Name)
+			if d.Enum != nil {
+				for _, v := range d.Enum.Values {
+					fmt.Fprintf(&b, "  value %s=%d\n", v.Name, v.Value)
+				}
+			}
+		case syntax.DefinitionMessage:
+			fmt.Fprintf(&b, "message %s\n", d.Name)
+			if d.Message != nil {
+				dumpFields(&b, d.Message.Fields, "  ")
+			}
+		case syntax.DefinitionStruct:
+			fmt.Fprintf(&b, "struct %s\n", d.Name)
+			if d.Struct != nil {
+				for _, f := range d.Struct.Fields {
+					fmt.Fprintf(&b, "  field %s %s\n", f.Name, dumpType(f.Type))
+				}
+			}
+		case syntax.DefinitionService:
+			kw := "service"
+			if d.Service != nil && d.Service.Sub {
+				kw = "subservice"
+			}
+			fmt.Fprintf(&b, "%s %s\n", kw, d.Name)
+			if d.Service != nil {
+				for _, m := range d.Service.Methods {
+					fmt.Fprintf(&b, "  method %s oneway=%v\n", m.Name, m.Oneway)
+					dumpIO(&b, "input", m.Input)
+					dumpIO(&b, "output", m.Output)
+					if m.Channel != nil {
+						fmt.Fprintf(&b, "    channel in=%s out=%s\n", dumpType(m.Channel.In), dumpType(m.Channel.Out))
+					}
+				}
+			}
+		default:
+			fmt.Fprintf(&b, "unknown-definition %d %s\n", d.Type, d.Name)
+		}
+	}
+	return b.String(), nil
+}
+
+func dumpIO(b *strings.Builder, what string, v any) {
+	switch x := v.(type) {
+	case nil:
+		fmt.Fprintf(b, "    %s none\n", what)
+	case *syntax.Type:
+		fmt.Fprintf(b, "    %s type %s\n", what, dumpType(x))
+	case syntax.Fields:
+		fmt.Fprintf(b, "    %s fields %d\n", what, len(x))
+		dumpFields(b, x, "      ")
+	case []*syntax.Field:
+		fmt.Fprintf(b, "    %s fields %d\n", what, len(x))
+		dumpFields(b, x, "      ")
+	default:
+		fmt.Fprintf(b, "    %s unknown %T\n", what, v)
+	}
+}
+
+func dumpFields(b *strings.Builder, fields []*syntax.Field, indent string) {
+	for _, f := range fields {
+		fmt.Fprintf(b, "%sfield %s %s %d\n", indent, f.Name, dumpType(f.Type), f.Tag)
+	}
+}
+
+func dumpType(t *syntax.Type) string {
+	if t == nil {
+		return "<nil>"
+	}
+	switch t.Kind {
+	case syntax.KindList:
+		return "[]" + dumpType(t.Element)
+	case syntax.KindReference:
+		if t.Import != "" {
+			return "ref:" + t.Import + "." + t.Name
+		}
+		return "ref:" + t.Name
+	}
+	return t.Kind.String() + ":" + t.Name
+}
